@@ -1,10 +1,11 @@
 (* Extraction of the GENERATED definitions (translator validation for C16). ExtrOcamlBasic only. *)
 From Coq Require Import ZArith List Extraction ExtrOcamlBasic.
 From MomoCommon Require Import GenPrelude.
-From C16 Require Gen_Log2_64 Gen_Log2_32 Gen_SegSqrt Gen_SegCnst.
+From C16 Require Gen_Log2_64 Gen_Log2_32 Gen_SegSqrt Gen_SegCnst SegModel.
 (* the generated table lookup uses Coq's List.nth; keep OCaml's own List module visible to lib/zutil.ml *)
 Extraction Blacklist List String.
 Separate Extraction
   Gen_Log2_64.Log2 Gen_Log2_32.Log2
   Gen_SegSqrt.GetSegItemIndexes Gen_SegSqrt.GetIndex Gen_SegSqrt.GetItemCount
-  Gen_SegCnst.GetSegItemIndexes Gen_SegCnst.GetIndex Gen_SegCnst.GetItemCount.
+  Gen_SegCnst.GetSegItemIndexes Gen_SegCnst.GetIndex Gen_SegCnst.GetItemCount
+  SegModel.step SegModel.capacity SegModel.empty SegModel.len.
